@@ -39,3 +39,36 @@ Theorem C08_invariant_from_empty : forall c h,
   (forall x, In x h -> is_push (fst (fst x)) = false) -> Sinv (run c init_st h).
 Proof. exact sinv_run_nopush. Qed.
 Print Assumptions C08_invariant_from_empty.
+
+(* The value files of a transaction block (model/TxnFiles.v: the two lists of Cache._transact, whose text is fixed by the translator's
+   template).  Nested calls: Stored f (a row refers to the new file), Discarded f (the call handed its own file to cleanup), Released g
+   (an old file handed to cleanup), Failed f (the call raised after writing f; the exception is caught inside the block). *)
+From DC Require Import TxnFiles TxnFilesFacts.
+
+(* ROLLBACK of the outermost transaction: the directory and the table are exactly as before the block, whatever happened inside *)
+Theorem C08_block_rollback_restores_files : forall files rows es,
+  (forall f, In f (flat_map new_file es) -> ~ In f files) ->
+  fst (rollback rows (run files rows es)) = files /\ snd (rollback rows (run files rows es)) = rows.
+Proof. exact rollback_restores_directory. Qed.
+Print Assumptions C08_block_rollback_restores_files.
+
+(* COMMIT when no nested call failed: no value file that no row refers to *)
+Theorem C08_block_commit_no_orphan_partial : forall files rows es,
+  (forall x, In x files -> In x rows) -> failed_files es = [] -> orphans (commit (run files rows es)) = [].
+Proof. exact commit_without_failure_no_orphan. Qed.
+Print Assumptions C08_block_commit_no_orphan_partial.
+
+(* ... and FALSE when a nested call failed (finding C08-F1): its file stays behind *)
+Theorem C08_block_commit_no_orphan_refuted : forall files rows es f,
+  ~ In f rows -> ~ In f (flat_map new_file es) -> ~ In (Released f) es ->
+  In f (orphans (commit (run files rows (es ++ [Failed f])))).
+Proof. exact commit_after_failure_orphan. Qed.
+Print Assumptions C08_block_commit_no_orphan_refuted.
+
+Theorem C08_block_nested_failure_witness :
+  (orphans (commit (run [1] [1] [Failed 2])) = [2]) /\ (dangling (commit (run [1] [1] [Failed 2])) = []) /\
+  (orphans (commit (run [1] [1] [Failed 2; Stored 3; Released 1])) = [2]) /\
+  (rollback [1] (run [1] [1] [Failed 2; Stored 3; Released 1]) = ([1], [1])) /\
+  (orphans (commit (run [1] [1] [Stored 3; Released 1; Discarded 4])) = []).
+Proof. exact nested_failure_witness. Qed.
+Print Assumptions C08_block_nested_failure_witness.
